@@ -29,6 +29,7 @@ func checkC10(c *Ctx, r *Report) {
 	c10CursorDiscipline(c, r, "C10.d")
 	c10TokenStartDiscipline(c, r, "C10.d")
 	c10SectionExtents(c, r)
+	c10ActionExtent(c, r)
 	c10c(c, r)
 	c10d(c, r)
 	// whether a rule ends with `;`, with the next rule's name, with %% or with the end of the file is layout: on every
